@@ -86,6 +86,23 @@ func projectN(n *idr.Node, depth int, budget *int) *Inst {
 	if depth > 40 {
 		panic("delivered node tree deeper than 40 levels (cyclic?)")
 	}
+	// x<i>: the text of line i; x<i>a, x<i>b, ...: the fields of line i (csv2)
+	type lineTxt struct {
+		idx    int
+		fields []string
+		whole  bool
+	}
+	var lines []*lineTxt
+	lineOf := func(i int) *lineTxt {
+		for _, l := range lines {
+			if l.idx == i {
+				return l
+			}
+		}
+		l := &lineTxt{idx: i}
+		lines = append(lines, l)
+		return l
+	}
 	for c := n.FirstChild; c != nil; c = c.NextSibling {
 		*budget--
 		if *budget < 0 {
@@ -102,7 +119,23 @@ func projectN(n *idr.Node, depth int, budget *int) *Inst {
 			if c.FirstChild != nil {
 				t = c.FirstChild.Data
 			}
-			in.X = append(in.X, t)
+			name := c.Data[1:]
+			field := -1
+			if last := name[len(name)-1]; last >= 'a' && last <= 'z' {
+				field = int(last - 'a')
+				name = name[:len(name)-1]
+			}
+			i, _ := strconv.Atoi(name)
+			l := lineOf(i)
+			if field < 0 {
+				l.whole = true
+				l.fields = []string{t}
+			} else {
+				for len(l.fields) <= field {
+					l.fields = append(l.fields, "")
+				}
+				l.fields[field] = t
+			}
 			continue
 		}
 		if len(c.Data) > 1 && c.Data[0] == 'c' {
@@ -117,7 +150,86 @@ func projectN(n *idr.Node, depth int, budget *int) *Inst {
 		}
 		in.Kids = append(in.Kids, projectN(c, depth+1, budget))
 	}
+	for _, l := range lines {
+		if l.whole {
+			in.X = append(in.X, l.fields[0])
+			continue
+		}
+		// csv2: a field beyond the row's last one reads as "": drop trailing empties, join the rest
+		f := l.fields
+		for len(f) > 1 && f[len(f)-1] == "" {
+			f = f[:len(f)-1]
+		}
+		in.X = append(in.X, strings.Join(f, ","))
+	}
 	return in
+}
+
+// adoptIDs: if the delivered instances have exactly the shape and texts of the expected ones, give
+// them the expected unit ids.
+func adoptIDs(got, want []*Inst) bool {
+	if len(got) != len(want) {
+		return false
+	}
+	var same func(a, b *Inst) bool
+	same = func(a, b *Inst) bool {
+		if a.Name != b.Name || len(a.X) != len(b.X) || len(a.Kids) != len(b.Kids) {
+			return false
+		}
+		for i := range a.X {
+			if a.X[i] != b.X[i] {
+				return false
+			}
+		}
+		for i := range a.Kids {
+			if !same(a.Kids[i], b.Kids[i]) {
+				return false
+			}
+		}
+		return true
+	}
+	for i := range got {
+		if !same(got[i], want[i]) {
+			return false
+		}
+	}
+	var cp func(a, b *Inst)
+	cp = func(a, b *Inst) {
+		a.IDs = append([]int(nil), b.IDs...)
+		for i := range a.Kids {
+			cp(a.Kids[i], b.Kids[i])
+		}
+	}
+	for i := range got {
+		cp(got[i], want[i])
+	}
+	return true
+}
+
+// alignIDs gives the lines of delivered pattern-case instances their unit ids: the texts are
+// matched against the input lines from left to right (a text that cannot be found gets id 0).
+func alignIDs(deliv []*Inst, us []Unit) {
+	p := 0
+	var rec func(in *Inst)
+	rec = func(in *Inst) {
+		in.IDs = nil
+		for _, t := range in.X {
+			id := 0
+			for q := p; q < len(us); q++ {
+				if us[q].Raw == t {
+					id, p = us[q].ID, q+1
+					break
+				}
+			}
+			in.IDs = append(in.IDs, id)
+		}
+		for _, k := range in.Kids {
+			rec(k)
+		}
+	}
+	for _, d := range deliv {
+		rec(d)
+	}
 }
 
 // ---- direct driver ----------------------------------------------------------------------------------
@@ -294,11 +406,15 @@ func leafLines(l Leaf) int {
 		return 1
 	case "rows":
 		return l.K
+	case "pat":
+		if l.FRe == "" {
+			return 1
+		}
 	}
 	return maxLines
 }
 
-func csvRecords(ds []*Decl, omit bool) []jobj {
+func csvRecords(ds []*Decl, omit bool, pat bool) []jobj {
 	out := []jobj{}
 	for _, d := range ds {
 		o := jobj{"name": declText(d, false)}
@@ -319,23 +435,34 @@ func csvRecords(ds []*Decl, omit bool) []jobj {
 			case "hf":
 				o["header"] = "^" + nameStr(d.Leaf.N) + ","
 				o["footer"] = "^" + nameStr(d.Leaf.F) + ","
+			case "pat":
+				o["header"] = d.Leaf.HRe
+				if d.Leaf.FRe != "" {
+					o["footer"] = d.Leaf.FRe
+				}
 			}
 			cols := []jobj{}
 			for i := 1; i <= leafLines(d.Leaf); i++ {
+				if pat {
+					for f := 0; f < 4; f++ {
+						cols = append(cols, jobj{"name": fmt.Sprintf("x%d%c", i, 'a'+f), "index": f + 1, "line_index": i})
+					}
+					continue
+				}
 				cols = append(cols, jobj{"name": fmt.Sprintf("c%d", i), "index": 2, "line_index": i})
 				cols = append(cols, jobj{"name": "f", "index": 3, "line_index": i})
 			}
 			o["columns"] = cols
 		}
 		if len(d.Kids) > 0 || d.Group {
-			o["child_records"] = csvRecords(d.Kids, omit)
+			o["child_records"] = csvRecords(d.Kids, omit, pat)
 		}
 		out = append(out, o)
 	}
 	return out
 }
 
-func fixedEnvelopes(ds []*Decl, omit bool) []jobj {
+func fixedEnvelopes(ds []*Decl, omit bool, pat bool) []jobj {
 	out := []jobj{}
 	for _, d := range ds {
 		o := jobj{"name": declText(d, false)}
@@ -356,16 +483,25 @@ func fixedEnvelopes(ds []*Decl, omit bool) []jobj {
 			case "hf":
 				o["header"] = "^" + nameStr(d.Leaf.N)
 				o["footer"] = "^" + nameStr(d.Leaf.F)
+			case "pat":
+				o["header"] = d.Leaf.HRe
+				if d.Leaf.FRe != "" {
+					o["footer"] = d.Leaf.FRe
+				}
 			}
 			cols := []jobj{}
 			for i := 1; i <= leafLines(d.Leaf); i++ {
+				if pat {
+					cols = append(cols, jobj{"name": fmt.Sprintf("x%d", i), "start_pos": 1, "length": 400, "line_index": i})
+					continue
+				}
 				cols = append(cols, jobj{"name": fmt.Sprintf("c%d", i), "start_pos": 2, "length": 4, "line_index": i})
 				cols = append(cols, jobj{"name": "f", "start_pos": 6, "length": 1, "line_index": i})
 			}
 			o["columns"] = cols
 		}
 		if len(d.Kids) > 0 || d.Group {
-			o["child_envelopes"] = fixedEnvelopes(d.Kids, omit)
+			o["child_envelopes"] = fixedEnvelopes(d.Kids, omit, pat)
 		}
 		out = append(out, o)
 	}
@@ -394,13 +530,13 @@ func ediSegments(ds []*Decl, omit bool) []jobj {
 	return out
 }
 
-func schemaFor(driver string, ds []*Decl, omit bool, relChar bool) string {
+func schemaFor(driver string, ds []*Decl, omit bool, relChar bool, pat bool) string {
 	var fd jobj
 	switch driver {
 	case "csv2":
-		fd = jobj{"delimiter": ",", "records": csvRecords(ds, omit)}
+		fd = jobj{"delimiter": ",", "records": csvRecords(ds, omit, pat)}
 	case "fixedlength2":
-		fd = jobj{"envelopes": fixedEnvelopes(ds, omit)}
+		fd = jobj{"envelopes": fixedEnvelopes(ds, omit, pat)}
 	default:
 		fd = jobj{"segment_delimiter": "~", "element_delimiter": "*", "segment_declarations": ediSegments(ds, omit)}
 		if relChar {
@@ -414,6 +550,10 @@ func schemaFor(driver string, ds []*Decl, omit bool, relChar bool) string {
 func inputFor(driver string, us []Unit) []byte {
 	var sb bytes.Buffer
 	for _, u := range us {
+		if u.Raw != "" && driver != "edi" {
+			sb.WriteString(u.Raw + "\n" + strings.Repeat("\n", u.Blank))
+			continue
+		}
 		switch driver {
 		case "csv2":
 			fmt.Fprintf(&sb, "%s,%d,%s", nameStr(u.Name), u.ID, flagOf(u))
